@@ -43,9 +43,9 @@ var addrKinds = []struct {
 var behaviours = []string{"names", "empty", "error", "slow"}
 
 type AScn struct {
-	Hops  []int          `json:"hops"`  // address kind per hop (the destination is kind Dest)
+	Hops  []int          `json:"hops"` // address kind per hop (the destination is kind Dest)
 	Dest  int            `json:"dest"`
-	Beh   map[string]int `json:"beh"`   // behaviour per distinct address string
+	Beh   map[string]int `json:"beh"` // behaviour per distinct address string
 	Bound int            `json:"bound"`
 	// DestHop: the last hop carries the destination mark (the destination answered), as in every run that reached its target
 	DestHop bool `json:"dest_hop,omitempty"`
@@ -542,11 +542,86 @@ func checkFetcher(h []int) (string, string) {
 	return "", ""
 }
 
+// ---- (e) shapes of a provider's answer body --------------------------------------------------------------------
+
+var bodyShapes = []struct {
+	name, body, want string // want = the address the body states ("" = not an address: the next provider is asked)
+}{
+	{"ipv4", "192.0.2.44", "192.0.2.44"},
+	{"ipv4-crlf", "192.0.2.44\r\n", "192.0.2.44"},
+	{"ipv4-padded", "  192.0.2.44 \n\n", "192.0.2.44"},
+	{"ipv6-compressed", "2001:db8::7334\n", "2001:db8::7334"},
+	{"ipv6-full-notation", "2001:0db8:85a3:0000:0000:8a2e:0370:7334\n", "2001:db8:85a3::8a2e:370:7334"},
+	{"ipv6-full-notation-padded", "   2001:0db8:85a3:0000:0000:8a2e:0370:7334  \n", "2001:db8:85a3::8a2e:370:7334"},
+	{"ipv6-full-notation-then-text", "2001:0db8:85a3:0000:0000:8a2e:0370:7334 (forwarded for 10.0.0.1)", ""},
+	{"ipv4-then-text", "192.0.2.44 is your address", ""},
+	{"five-octets", "192.0.2.44.5", ""},
+	{"empty", "", ""},
+	{"html-page", "<html>" + strings.Repeat("x", 5000) + "192.0.2.44</html>", ""},
+}
+
+type bodyRT struct {
+	order []string
+	body  string
+	log   []int
+}
+
+func (t *bodyRT) RoundTrip(req *http.Request) (*http.Response, error) {
+	vsched.Yield("http")
+	idx := -1
+	for i, u := range t.order {
+		if req.URL.String() == u {
+			idx = i
+		}
+	}
+	t.log = append(t.log, idx)
+	body := "198.51.100.200\n" // every provider but the first gives a plain valid answer
+	if idx == 0 {
+		body = t.body
+	}
+	return &http.Response{StatusCode: 200, Status: "200 OK", Body: io.NopCloser(strings.NewReader(body)), Header: http.Header{}, Request: req}, nil
+}
+
+func checkBody(i int) (string, string) {
+	sh := bodyShapes[i]
+	t := &bodyRT{order: publicip.VerifCheckers(), body: sh.body}
+	var ip net.IP
+	var err error
+	vrand.Src = jit{0.5}
+	defer func() { vrand.Src = nil }()
+	x := vsched.Run(vsched.Config{MaxVirtual: time.Hour}, nil, func() {
+		bp := backoff.NewExponentialBackOff()
+		bp.InitialInterval = 500 * time.Millisecond
+		bp.MaxInterval = 3 * time.Second
+		ip, err = publicip.GetPublicIP(context.Background(), &http.Client{Transport: t}, bp)
+	})
+	if x.Outcome != vsched.Normal {
+		return "no-answer", fmt.Sprintf("body %q: outcome %s", sh.name, x.Outcome)
+	}
+	want := sh.want
+	if want == "" {
+		want = "198.51.100.200"
+	}
+	if err != nil || ip == nil || ip.String() != want {
+		return "wrong-address-for-this-body", fmt.Sprintf("first provider's body %q (%s): got ip=%v err=%v, want %s", sh.body[:min(len(sh.body), 60)], sh.name, ip, err, want)
+	}
+	asked2 := false
+	for _, k := range t.log {
+		if k > 0 {
+			asked2 = true
+		}
+	}
+	if (sh.want != "") == asked2 {
+		return "provider-sequence-for-this-body", fmt.Sprintf("body %s: providers asked %v", sh.name, t.log)
+	}
+	return "", ""
+}
+
 func pCount() int { return 5 * 5 * 5 * 5 * 5 * 3 }
 
 const pChunk = 125
 
-func count(tier string) int { return len(aItems(tier)) + 1 + pCount()/pChunk + 1 }
+func count(tier string) int { return len(aItems(tier)) + 1 + pCount()/pChunk + 1 + 1 }
 
 func run(tier string, idx int, r *core.ScnResult) {
 	as := aItems(tier)
@@ -641,6 +716,17 @@ func run(tier string, idx int, r *core.ScnResult) {
 	// provider scripts
 	c := idx - 1
 	r.Nontrivial = true
+	if c == pCount()/pChunk+1 {
+		for i := range bodyShapes {
+			r.Evals++
+			r.Stats.Executions++
+			if k, d := checkBody(i); k != "" {
+				r.Fail(core.Failure{Key: "C18 public-ip/body-shapes/" + k, What: d, Scenario: core.JSON(map[string]any{"body_shape": i})})
+			}
+		}
+		r.Outcome("body-shapes")
+		return
+	}
 	if c == pCount()/pChunk {
 		// fetcher histories
 		hs := fHistories(tier)
@@ -679,10 +765,11 @@ func run(tier string, idx int, r *core.ScnResult) {
 
 func replay(scn json.RawMessage, choices []int) (string, bool) {
 	var w struct {
-		E *AScn  `json:"enrich"`
-		H []int  `json:"history"`
-		P *PScn  `json:"providers"`
-		F []int  `json:"fetcher_history"`
+		E *AScn `json:"enrich"`
+		H []int `json:"history"`
+		P *PScn `json:"providers"`
+		F []int `json:"fetcher_history"`
+		B *int  `json:"body_shape"`
 	}
 	json.Unmarshal(scn, &w)
 	switch {
@@ -696,6 +783,10 @@ func replay(scn json.RawMessage, choices []int) (string, bool) {
 		got, want, _ := runHistory(w.H)
 		if !reflect.DeepEqual(got, want) {
 			return fmt.Sprintf("history %v\nORACLE FAILED: got %+v want %+v\n", w.H, got, want), false
+		}
+	case w.B != nil:
+		if k, d := checkBody(*w.B); k != "" {
+			return fmt.Sprintf("body shape %d\nORACLE FAILED: %s: %s\n", *w.B, k, d), false
 		}
 	case w.F != nil:
 		if k, d := checkFetcher(w.F); k != "" {
